@@ -9,7 +9,8 @@ EXPLANATION = ("C07: (R1-R3) the range-mapping writer advances to the token's li
                "saturating_add; (R5) the reader takes bit k of the line's bitfield for segment k; (R6) encode_byte and "
                "decode_rmi are inverse RFC 4648 tables over 6-bit little-endian groups (value-set over all 256 inputs); "
                "(R7) panic-freedom of the writer, reader and lookup."
-               " (R8) the index delegation keeps the section-relative position the range offset is computed from.")
+               " (R8) the index delegation keeps the section-relative position the range offset is computed from."
+               " (R9) the rangeMappings key is optional and omitted when empty; (R10) decode_regular rejects only for the reviewed reasons; (R3m) only exact duplicates are dropped before the bitfield is written.")
 NOT_DECIDED = "the value-level equality 'flag set after a round trip = flag set before' for all maps."
 
 
